@@ -1,15 +1,50 @@
 // @host src/db/hash_map_tree/catalog.rs
 // @transform hashmap_model
 //
-// C22: HashMapTreeCatalog histories against a reference association list.
-// (probe version)
+// C22 (and the longest-suffix part of C07): the real HashMapTreeCatalog code
+// (lookup_in_class, remove_in_class, Node::get_or_create_descendant, the
+// Catalog trait's lookup/get, HashMapTreeCatalog::{insert, remove, iter})
+// against a reference ASSOCIATION LIST kept in the harness: a set of
+// (name, class, tag) facts, "longest suffix" decided by comparing labels of
+// the wire forms from the right, exact match = same number of labels.
+//
+// Shape of every harness ("one step from an arbitrary catalog of a fixed
+// shape"): a catalog tree of a CONCRETE shape is built by hand (struct
+// literals + the HashMap model's insert - the harness is a child module of
+// catalog.rs and sees the private fields), every node of it carries a
+// SYMBOLIC entry (absent / NotYetLoaded / FailedToLoad with a symbolic u8
+// tag), so all 3^k * 256^k entry assignments of that shape are covered,
+// including trees with entry-less leaves (a superset of what insert/remove
+// histories can produce).  Then ONE operation of the real code runs and the
+// whole catalog is observed again through the real lookup code for every
+// name of a query pool and compared with the reference.  Since the start
+// state is arbitrary (within the shape) and the end state is observed
+// completely (within the pool), chains of such steps cover histories.
+//
+// What makes this fit into CBMC (measured, see the report):
+//  * `--max-field-sensitivity-array-size 1024`: with it CBMC propagates
+//    constants through the small heap objects of the tree (Box<Name>, the
+//    Vec buffers of the HashMap model), so only the entries are symbolic.
+//  * the recursive functions are called directly on a stack-resident root
+//    where the public wrapper would go through the HashMap model's `entry()`
+//    (an enum holding `&mut HashMap`: reading the reference back out of the
+//    enum defeats constant propagation and every later Vec::push explores the
+//    reallocation path with a symbolic-size array copy -> out of memory).
+//    The wrappers are covered separately on a small catalog.
+//  * node CREATION (get_or_create_descendant on a missing label) goes through
+//    `entry().or_insert_with()` and is out of reach for that reason: see
+//    the report.  Insert is covered where the node already exists.
+//
+// Entries never hold a zone (`Entry::Loaded(Arc<Z>)` is never constructed;
+// Z = NoZone is a unit type): which zone object an entry carries is opaque to
+// the catalog code, the tag plays its role.
 
 use super::*;
 use crate::db::zone::{GluePolicy, IteratorByNode, LookupAddrsResult, LookupAllResult, LookupOptions, LookupResult};
+use crate::name::LabelBuf;
 use crate::rr::Type;
 
-/// A zone type that is never instantiated: catalog entries in these harnesses
-/// are always `Entry::NotYetLoaded` / `Entry::FailedToLoad`.
+/// A zone type that is never instantiated.
 pub struct NoZone;
 
 impl Zone for NoZone {
@@ -22,41 +57,39 @@ impl Zone for NoZone {
     fn glue_policy(&self) -> GluePolicy {
         GluePolicy::Narrow
     }
-    fn lookup(&self, _name: &Name, _rr_type: Type, _options: LookupOptions) -> LookupResult {
+    fn lookup(&self, _name: &Name, _rr_type: Type, _options: LookupOptions) -> LookupResult<'_> {
         LookupResult::WrongZone
     }
-    fn lookup_addrs(&self, _name: &Name, _options: LookupOptions) -> LookupAddrsResult {
+    fn lookup_addrs(&self, _name: &Name, _options: LookupOptions) -> LookupAddrsResult<'_> {
         LookupAddrsResult::WrongZone
     }
-    fn lookup_all(&self, _name: &Name, _options: LookupOptions) -> LookupAllResult {
+    fn lookup_all(&self, _name: &Name, _options: LookupOptions) -> LookupAllResult<'_> {
         LookupAllResult::WrongZone
     }
-    fn iter_by_node(&self) -> IteratorByNode {
+    fn iter_by_node(&self) -> IteratorByNode<'_> {
         Box::new(core::iter::empty())
     }
 }
 
 type Cat = HashMapTreeCatalog<NoZone, u8>;
+type TNode = Node<NoZone, u8>;
+type TEntry = Entry<NoZone, u8>;
 
-fn nm<const N: usize>(w: [u8; N]) -> Box<Name> {
-    match Name::try_from_uncompressed_all(&w) {
-        Ok(n) => n,
-        Err(_) => {
-            assert!(false, "pool name is valid");
-            loop {}
-        }
-    }
-}
-
+// ---------------------------------------------------------------------------
+// Stub: <[u8]>::eq_ignore_ascii_case (what Label's PartialEq calls).  The std
+// implementation reinterprets the slices as 16-octet chunks, which CBMC's
+// array post-processing does not survive on heap objects (measured by the
+// C19 family, > 20 GB); the model has the documented contract and is checked
+// against the real function by c19_stub_eq_ignore_ascii_case_model
+// (harness/rdata_eq.rs).
+// ---------------------------------------------------------------------------
 fn eq_ic_model(a: &[u8], b: &[u8]) -> bool {
     if a.len() != b.len() {
         return false;
     }
     let mut i = 0;
     while i < a.len() {
-        let x = if a[i] >= b'A' && a[i] <= b'Z' { a[i] + 32 } else { a[i] };
-        let y = if b[i] >= b'A' && b[i] <= b'Z' { b[i] + 32 } else { b[i] };
-        if x != y {
+        if ref_lower(a[i]) != ref_lower(b[i]) {
             return false;
         }
         i += 1;
@@ -64,619 +97,593 @@ fn eq_ic_model(a: &[u8], b: &[u8]) -> bool {
     true
 }
 
-fn tag_of(e: Option<&Entry<NoZone, u8>>) -> Option<u8> {
-    match e {
-        Some(Entry::NotYetLoaded(_, _, t)) => Some(*t),
-        Some(_) => Some(255),
-        None => None,
-    }
-}
-
-// @harness props=C22 tier=quick mem=4 t=900 fn="HashMapTreeCatalog::insert,lookup"
-//   bound="probe" sym="tag" stubs="eq_ignore_ascii_case"
-#[kani::proof]
-#[kani::unwind(6)]
-#[kani::stub(<[u8]>::eq_ignore_ascii_case, eq_ic_model)]
-fn c22_probe_insert_lookup() {
-    let t: u8 = kani::any();
-    kani::assume(t < 200);
-    let mut cat = Cat::new();
-    let a = nm([1, b'a', 0]);
-    let ba = nm([1, b'b', 1, b'a', 0]);
-    cat.insert(Entry::NotYetLoaded(nm([1, b'a', 0]), Class::IN, t));
-    let r = tag_of(cat.lookup(&ba, Class::IN));
-    assert!(r == Some(t), "[C22] lookup finds the longest-suffix entry");
-    let g = tag_of(cat.get(&ba, Class::IN));
-    assert!(g.is_none(), "[C22] get is exact");
-    let g2 = tag_of(cat.get(&a, Class::IN));
-    assert!(g2 == Some(t), "[C22] get finds the exact entry");
-    kani::cover!(r == Some(7), "witness");
-    core::mem::forget(cat);
-    core::mem::forget(a);
-    core::mem::forget(ba);
-}
-
-// @harness props=C22 tier=quick mem=4 t=900 fn="HashMapTreeCatalog::insert,remove,get"
-//   bound="probe D11" sym="tags" stubs="eq_ignore_ascii_case"
-#[kani::proof]
-#[kani::unwind(6)]
-#[kani::stub(<[u8]>::eq_ignore_ascii_case, eq_ic_model)]
-fn c22_probe_d11() {
-    let t1: u8 = kani::any();
-    let t2: u8 = kani::any();
-    kani::assume(t1 < 200 && t2 < 200);
-    let mut cat = Cat::new();
-    let a = nm([1, b'a', 0]);
-    let ba = nm([1, b'b', 1, b'a', 0]);
-    cat.insert(Entry::NotYetLoaded(nm([1, b'a', 0]), Class::IN, t1));
-    cat.insert(Entry::NotYetLoaded(nm([1, b'b', 1, b'a', 0]), Class::IN, t2));
-    let removed = cat.remove(&ba, Class::IN);
-    assert!(tag_of(removed.as_ref()) == Some(t2), "[C22] remove returns the removed entry");
-    let g = tag_of(cat.get(&a, Class::IN));
-    assert!(g == Some(t1), "[C22] removing one entry leaves the others in place");
-    kani::cover!(g == Some(7), "witness");
-    core::mem::forget(removed);
-    core::mem::forget(cat);
-    core::mem::forget(a);
-    core::mem::forget(ba);
-}
-
-
-// ---------------------------------------------------------------------------
-// experiments: hand-built tree
-// ---------------------------------------------------------------------------
-use crate::name::LabelBuf;
-
-fn any_entry<const N: usize>(w: [u8; N]) -> Option<Entry<NoZone, u8>> {
-    let present: bool = kani::any();
-    let t: u8 = kani::any();
-    if present {
-        Some(Entry::NotYetLoaded(nm(w), Class::IN, t))
+fn ref_lower(b: u8) -> u8 {
+    if b >= b'A' && b <= b'Z' {
+        b + 32
     } else {
-        None
+        b
     }
 }
 
-fn mk(name: Box<Name>, data: Option<Entry<NoZone, u8>>) -> Node<NoZone, u8> {
-    Node { name, children: HashMap::new(), data }
-}
+// ---------------------------------------------------------------------------
+// The name pool (uncompressed wire forms) and the reference
+// ---------------------------------------------------------------------------
 
-fn etag(e: &Option<Entry<NoZone, u8>>) -> Option<u8> {
-    match e {
-        Some(Entry::NotYetLoaded(_, _, t)) => Some(*t),
-        Some(_) => Some(255),
-        None => None,
+const N_ROOT: &[u8] = &[0];
+const N_A: &[u8] = &[1, b'a', 0];
+const N_BA: &[u8] = &[1, b'b', 1, b'a', 0];
+const N_XA: &[u8] = &[1, b'x', 1, b'a', 0];
+const N_CBA: &[u8] = &[1, b'c', 1, b'b', 1, b'a', 0];
+/// Names that can hold an entry (the nodes of the tree shapes), by index.
+const POOL: [&[u8]; 5] = [N_ROOT, N_A, N_BA, N_XA, N_CBA];
+const I_ROOT: usize = 0;
+const I_A: usize = 1;
+const I_BA: usize = 2;
+const I_XA: usize = 3;
+const I_CBA: usize = 4;
+
+/// Names every observation asks about: the pool, case variants, names below
+/// and beside the tree.
+const QUERIES: [&[u8]; 9] = [
+    N_ROOT,
+    N_A,
+    N_BA,
+    N_XA,
+    N_CBA,
+    &[1, b'B', 1, b'A', 0],                   // case variant of b.a.
+    &[1, b'y', 1, b'a', 0],                   // sibling without a node
+    &[1, b'd', 1, b'c', 1, b'b', 1, b'a', 0], // below the deepest node
+    &[1, b'a', 1, b'b', 0],                   // labels in the other order: only "." is a suffix
+];
+
+fn nm(w: &[u8]) -> Box<Name> {
+    match Name::try_from_uncompressed_all(w) {
+        Ok(n) => n,
+        Err(_) => {
+            assert!(false, "pool names are valid");
+            loop {}
+        }
     }
 }
 
-// @harness props=C22 tier=quick mem=4 t=900 fn="lookup_in_class"
-//   bound="experiment M1" sym="entries" stubs="eq_ignore_ascii_case"
-#[kani::proof]
-#[kani::unwind(6)]
-#[kani::stub(<[u8]>::eq_ignore_ascii_case, eq_ic_model)]
-fn c22_m1_lookup() {
-    let e_root = any_entry([0]);
-    let e_a = any_entry([1, b'a', 0]);
-    let e_ba = any_entry([1, b'b', 1, b'a', 0]);
-    let e_xa = any_entry([1, b'x', 1, b'a', 0]);
-    let e_cba = any_entry([1, b'c', 1, b'b', 1, b'a', 0]);
-    let (t_root, t_a, t_ba, t_xa, t_cba) = (etag(&e_root), etag(&e_a), etag(&e_ba), etag(&e_xa), etag(&e_cba));
-    let cba = mk(nm([1, b'c', 1, b'b', 1, b'a', 0]), e_cba);
-    let mut ba = mk(nm([1, b'b', 1, b'a', 0]), e_ba);
-    core::mem::forget(ba.children.insert(LabelBuf::from(b"c"), cba));
-    let xa = mk(nm([1, b'x', 1, b'a', 0]), e_xa);
-    let mut a = mk(nm([1, b'a', 0]), e_a);
-    core::mem::forget(a.children.insert(LabelBuf::from(b"b"), ba));
-    core::mem::forget(a.children.insert(LabelBuf::from(b"x"), xa));
-    let mut root = mk(nm([0]), e_root);
-    core::mem::forget(root.children.insert(LabelBuf::from(b"a"), a));
-    let mut cat = Cat::new();
-    core::mem::forget(cat.roots_by_class.insert(Class::IN, root));
-
-    let q = nm([1, b'c', 1, b'b', 1, b'a', 0]);
-    let r = tag_of(cat.lookup(&q, Class::IN));
-    let want = if t_cba.is_some() { t_cba } else if t_ba.is_some() { t_ba } else if t_a.is_some() { t_a } else { t_root };
-    assert!(r == want, "[C22] lookup returns the deepest entry on the path");
-    kani::cover!(r == Some(7) && t_cba.is_none() && t_ba.is_none(), "witness: found at a.");
-    core::mem::forget(cat);
-    core::mem::forget(q);
+/// Offsets of the labels of a wire-form name (root label included).
+fn ref_labels(w: &[u8]) -> ([usize; 8], usize) {
+    let mut offs = [0usize; 8];
+    let mut n = 0;
+    let mut pos = 0;
+    loop {
+        offs[n] = pos;
+        n += 1;
+        let l = w[pos] as usize;
+        if l == 0 {
+            return (offs, n);
+        }
+        pos += 1 + l;
+    }
 }
 
-
-fn build5(
-    e_root: Option<Entry<NoZone, u8>>,
-    e_a: Option<Entry<NoZone, u8>>,
-    e_ba: Option<Entry<NoZone, u8>>,
-    e_xa: Option<Entry<NoZone, u8>>,
-    e_cba: Option<Entry<NoZone, u8>>,
-) -> Cat {
-    let cba = mk(nm([1, b'c', 1, b'b', 1, b'a', 0]), e_cba);
-    let mut ba = mk(nm([1, b'b', 1, b'a', 0]), e_ba);
-    core::mem::forget(ba.children.insert(LabelBuf::from(b"c"), cba));
-    let xa = mk(nm([1, b'x', 1, b'a', 0]), e_xa);
-    let mut a = mk(nm([1, b'a', 0]), e_a);
-    core::mem::forget(a.children.insert(LabelBuf::from(b"b"), ba));
-    core::mem::forget(a.children.insert(LabelBuf::from(b"x"), xa));
-    let mut root = mk(nm([0]), e_root);
-    core::mem::forget(root.children.insert(LabelBuf::from(b"a"), a));
-    let mut cat = Cat::new();
-    core::mem::forget(cat.roots_by_class.insert(Class::IN, root));
-    cat
-}
-
-// @harness props=C22 tier=quick mem=4 t=900 fn="remove_in_class"
-//   bound="experiment M2" sym="entries" stubs="eq_ignore_ascii_case"
-#[kani::proof]
-#[kani::unwind(6)]
-#[kani::stub(<[u8]>::eq_ignore_ascii_case, eq_ic_model)]
-fn c22_m2_remove() {
-    let e_root = any_entry([0]);
-    let e_a = any_entry([1, b'a', 0]);
-    let e_ba = any_entry([1, b'b', 1, b'a', 0]);
-    let e_xa = any_entry([1, b'x', 1, b'a', 0]);
-    let e_cba = any_entry([1, b'c', 1, b'b', 1, b'a', 0]);
-    let (t_root, t_a, t_ba, t_xa, t_cba) = (etag(&e_root), etag(&e_a), etag(&e_ba), etag(&e_xa), etag(&e_cba));
-    let mut cat = build5(e_root, e_a, e_ba, e_xa, e_cba);
-
-    let q = nm([1, b'c', 1, b'b', 1, b'a', 0]);
-    let removed = cat.remove(&q, Class::IN);
-    assert!(etag(&removed) == t_cba, "[C22] remove returns the entry that was at the name");
-    let qa = nm([1, b'a', 0]);
-    let r = tag_of(cat.get(&qa, Class::IN));
-    assert!(r == t_a, "[C22] removing one entry leaves the others in place");
-    kani::cover!(r == Some(7) && t_cba.is_some() && t_ba.is_none(), "witness");
-    core::mem::forget(removed);
-    core::mem::forget(cat);
-    core::mem::forget(q);
-    core::mem::forget(qa);
-}
-
-
-#[kani::proof]
-#[kani::unwind(6)]
-#[kani::stub(<[u8]>::eq_ignore_ascii_case, eq_ic_model)]
-fn c22_e1_remove_only() {
-    let e_root = any_entry([0]);
-    let e_a = any_entry([1, b'a', 0]);
-    let e_ba = any_entry([1, b'b', 1, b'a', 0]);
-    let e_xa = any_entry([1, b'x', 1, b'a', 0]);
-    let e_cba = any_entry([1, b'c', 1, b'b', 1, b'a', 0]);
-    let (t_root, t_a, t_ba, t_xa, t_cba) = (etag(&e_root), etag(&e_a), etag(&e_ba), etag(&e_xa), etag(&e_cba));
-    let mut cat = build5(e_root, e_a, e_ba, e_xa, e_cba);
-    let q = nm([1, b'x', 1, b'a', 0]);
-    let removed = cat.remove(&q, Class::IN);
-    assert!(etag(&removed) == t_xa, "[C22] remove returns the entry that was at the name");
-    kani::cover!(t_xa == Some(7), "witness");
-    core::mem::forget(removed);
-    core::mem::forget(cat);
-    core::mem::forget(q);
-}
-
-#[kani::proof]
-#[kani::unwind(6)]
-#[kani::stub(<[u8]>::eq_ignore_ascii_case, eq_ic_model)]
-fn c22_e2_small_remove() {
-    let e_root = any_entry([0]);
-    let e_a = any_entry([1, b'a', 0]);
-    let (t_root, t_a) = (etag(&e_root), etag(&e_a));
-    let a = mk(nm([1, b'a', 0]), e_a);
-    let mut root = mk(nm([0]), e_root);
-    core::mem::forget(root.children.insert(LabelBuf::from(b"a"), a));
-    let mut cat = Cat::new();
-    core::mem::forget(cat.roots_by_class.insert(Class::IN, root));
-    let q = nm([1, b'a', 0]);
-    let removed = cat.remove(&q, Class::IN);
-    assert!(etag(&removed) == t_a, "[C22] remove returns the entry that was at the name");
-    let q0 = nm([0]);
-    let r = tag_of(cat.get(&q0, Class::IN));
-    assert!(r == t_root, "[C22] removing one entry leaves the others in place");
-    kani::cover!(t_a == Some(7), "witness");
-    core::mem::forget(removed);
-    core::mem::forget(cat);
-    core::mem::forget(q);
-    core::mem::forget(q0);
-}
-
-
-#[kani::proof]
-#[kani::unwind(6)]
-#[kani::stub(<[u8]>::eq_ignore_ascii_case, eq_ic_model)]
-fn c22_e3_insert_create() {
-    let e_root = any_entry([0]);
-    let t_root = etag(&e_root);
-    let root = mk(nm([0]), e_root);
-    let mut cat = Cat::new();
-    core::mem::forget(cat.roots_by_class.insert(Class::IN, root));
-    let t: u8 = kani::any();
-    let old = cat.insert(Entry::NotYetLoaded(nm([1, b'a', 0]), Class::IN, t));
-    assert!(old.is_none(), "[C22] insert returns the replaced entry");
-    let q0 = nm([0]);
-    let r = tag_of(cat.get(&q0, Class::IN));
-    assert!(r == t_root, "[C22] inserting one entry leaves the others in place");
-    let q = nm([1, b'a', 0]);
-    let r2 = tag_of(cat.get(&q, Class::IN));
-    assert!(r2 == Some(t), "[C22] get finds the inserted entry");
-    kani::cover!(t_root == Some(7), "witness");
-    core::mem::forget(old);
-    core::mem::forget(cat);
-    core::mem::forget(q);
-    core::mem::forget(q0);
-}
-
-
-unsafe fn init_into_model(allocation: *mut u8, label_offsets: &[u8], slices: &[&[u8]]) {
-    let n_labels = label_offsets.len();
-    allocation.write(n_labels as u8);
-    let mut i = 0;
-    while i < n_labels {
-        allocation.add(1 + i).write(label_offsets[i]);
+fn ref_label_eq(a: &[u8], ao: usize, b: &[u8], bo: usize) -> bool {
+    if a[ao] != b[bo] {
+        return false;
+    }
+    let l = a[ao] as usize;
+    let mut i = 1;
+    while i <= l {
+        if ref_lower(a[ao + i]) != ref_lower(b[bo + i]) {
+            return false;
+        }
         i += 1;
     }
-    let mut index = 1 + n_labels;
+    true
+}
+
+/// Is `s` a suffix of `n`, label by label from the right (RFC 1034 3.1:
+/// case-insensitive)?  Returns the number of labels of `s` if so.
+fn ref_suffix(s: &[u8], n: &[u8]) -> Option<usize> {
+    let (so, sc) = ref_labels(s);
+    let (no, nc) = ref_labels(n);
+    if sc > nc {
+        return None;
+    }
     let mut k = 0;
-    while k < slices.len() {
-        let s = slices[k];
-        let mut j = 0;
-        while j < s.len() {
-            allocation.add(index + j).write(s[j]);
-            j += 1;
+    while k < sc {
+        if !ref_label_eq(s, so[sc - 1 - k], n, no[nc - 1 - k]) {
+            return None;
         }
-        index += s.len();
+        k += 1;
+    }
+    Some(sc)
+}
+
+/// What an entry looks like to the harness: (failed-to-load?, tag).
+type Seen = Option<(bool, u8)>;
+
+/// The reference catalog of one class: which pool names have an entry.
+#[derive(Clone, Copy)]
+struct RefCat {
+    present: [bool; 5],
+    failed: [bool; 5],
+    tag: [u8; 5],
+}
+
+impl RefCat {
+    fn any() -> Self {
+        RefCat { present: kani::any(), failed: kani::any(), tag: kani::any() }
+    }
+    fn seen(&self, i: usize) -> Seen {
+        if self.present[i] {
+            Some((self.failed[i], self.tag[i]))
+        } else {
+            None
+        }
+    }
+    /// Longest-suffix entry for `q` and whether it is an exact match.
+    fn lookup(&self, q: &[u8]) -> (Seen, bool) {
+        let (_, qc) = ref_labels(q);
+        let mut best: Seen = None;
+        let mut best_len = 0;
+        let mut i = 0;
+        while i < 5 {
+            if self.present[i] {
+                if let Some(l) = ref_suffix(POOL[i], q) {
+                    if l > best_len {
+                        best = self.seen(i);
+                        best_len = l;
+                    }
+                }
+            }
+            i += 1;
+        }
+        (best, best.is_some() && best_len == qc)
+    }
+    fn entry(&self, i: usize, class: Class) -> Option<TEntry> {
+        if !self.present[i] {
+            None
+        } else if self.failed[i] {
+            Some(Entry::FailedToLoad(nm(POOL[i]), class, self.tag[i]))
+        } else {
+            Some(Entry::NotYetLoaded(nm(POOL[i]), class, self.tag[i]))
+        }
+    }
+    fn count(&self, in_shape: [bool; 5]) -> usize {
+        let mut n = 0;
+        let mut i = 0;
+        while i < 5 {
+            if in_shape[i] && self.present[i] {
+                n += 1;
+            }
+            i += 1;
+        }
+        n
+    }
+}
+
+fn see(e: Option<&TEntry>) -> Seen {
+    match e {
+        Some(Entry::NotYetLoaded(_, _, t)) => Some((false, *t)),
+        Some(Entry::FailedToLoad(_, _, t)) => Some((true, *t)),
+        Some(Entry::Loaded(_, _)) => {
+            assert!(false, "[C22] the catalog invented a Loaded entry");
+            None
+        }
+        None => None,
+    }
+}
+
+fn see_owned(e: &Option<TEntry>) -> Seen {
+    see(e.as_ref())
+}
+
+fn mk(w: &[u8], data: Option<TEntry>) -> TNode {
+    Node { name: nm(w), children: HashMap::new(), data }
+}
+
+fn attach(parent: &mut TNode, label: &[u8; 1], child: TNode) {
+    // the model's insert returns the replaced value (always None here);
+    // forgetting it keeps the recursive drop glue of Node out of the harness
+    core::mem::forget(parent.children.insert(LabelBuf::from(label), child));
+}
+
+const SHAPE_T5: [bool; 5] = [true, true, true, true, true];
+const SHAPE_CHAIN4: [bool; 5] = [true, true, true, false, true];
+const SHAPE_ROOT: [bool; 5] = [true, false, false, false, false];
+const SHAPE_ROOT_A: [bool; 5] = [true, true, false, false, false];
+
+/// . -> a -> { b -> c, x }
+fn build_t5(r: &RefCat, class: Class) -> TNode {
+    let cba = mk(N_CBA, r.entry(I_CBA, class));
+    let mut ba = mk(N_BA, r.entry(I_BA, class));
+    attach(&mut ba, b"c", cba);
+    let xa = mk(N_XA, r.entry(I_XA, class));
+    let mut a = mk(N_A, r.entry(I_A, class));
+    attach(&mut a, b"b", ba);
+    attach(&mut a, b"x", xa);
+    let mut root = mk(N_ROOT, r.entry(I_ROOT, class));
+    attach(&mut root, b"a", a);
+    root
+}
+
+/// . -> a -> b -> c   (every node has at most one child: pruning can cascade)
+fn build_chain4(r: &RefCat, class: Class) -> TNode {
+    let cba = mk(N_CBA, r.entry(I_CBA, class));
+    let mut ba = mk(N_BA, r.entry(I_BA, class));
+    attach(&mut ba, b"c", cba);
+    let mut a = mk(N_A, r.entry(I_A, class));
+    attach(&mut a, b"b", ba);
+    let mut root = mk(N_ROOT, r.entry(I_ROOT, class));
+    attach(&mut root, b"a", a);
+    root
+}
+
+/// Restricts the reference to the nodes a shape has.
+fn in_shape(mut r: RefCat, shape: [bool; 5]) -> RefCat {
+    let mut i = 0;
+    while i < 5 {
+        if !shape[i] {
+            r.present[i] = false;
+        }
+        i += 1;
+    }
+    r
+}
+
+/// Observes a class tree through the real lookup code for every query name:
+/// longest-suffix lookup, and exact lookup computed the way Catalog::get's
+/// provided implementation does (filter on the label count).
+fn observe_tree(root: &TNode, r: &RefCat) {
+    let mut k = 0;
+    while k < QUERIES.len() {
+        let q = nm(QUERIES[k]);
+        let got = lookup_in_class(root, &q, q.len() - 1);
+        let got_exact = match got {
+            Some(e) => e.name().len() == q.len(),
+            None => false,
+        };
+        let (want, want_exact) = r.lookup(QUERIES[k]);
+        assert!(see(got) == want, "[C22] lookup returns the entry of that class whose name is the longest suffix of the name");
+        assert!(got_exact == want_exact, "[C22] exact lookup returns only an entry with exactly that name");
+        core::mem::forget(q);
         k += 1;
     }
 }
 
-#[kani::proof]
-#[kani::unwind(9)]
-#[kani::stub(<[u8]>::eq_ignore_ascii_case, eq_ic_model)]
-#[kani::stub(crate::name::Name::initialize_into, init_into_model)]
-fn c22_e4_const_names() {
-    let a = nm([1, b'c', 1, b'b', 1, b'a', 0]);
-    assert!(a.len() == 4, "[C22] e4 len");
-    assert!(a[0].octets().len() == 1, "[C22] e4 label len");
-    assert!(a[1].octets()[0] == b'b', "[C22] e4 label octet");
-    let b = nm([1, b'b', 1, b'a', 0]);
-    assert!(a.eq_or_subdomain_of(&b), "[C22] e4 subdomain");
-    kani::cover!(a.len() == 4, "witness");
-    core::mem::forget(a);
-    core::mem::forget(b);
-}
+// ---------------------------------------------------------------------------
+// lookup / get / iter through the public API, two classes
+// ---------------------------------------------------------------------------
 
-
-fn spin_a(n: usize) -> usize { let mut i = 0; while i < n { i += 1; } i }
-fn spin_b(n: usize) -> usize { let mut i = 0; while i < n { i += 1; } i }
-fn spin_c(n: usize) -> usize { let mut i = 0; while i < n { i += 1; } i }
-fn spin_d(n: usize) -> usize { let mut i = 0; while i < n { i += 1; } i }
-
-#[kani::proof]
-#[kani::unwind(9)]
-#[kani::stub(<[u8]>::eq_ignore_ascii_case, eq_ic_model)]
-fn c22_e5_const_probe() {
-    let a = nm([1, b'c', 1, b'b', 1, b'a', 0]);
-    let x = spin_a(a.len());
-    let y = spin_b(a.wire_repr().len());
-    let z = spin_c(a[0].octets().len());
-    let w = spin_d(a.wire_repr()[2] as usize);
-    assert!(x + y + z + w > 0, "[C22] e5");
-    kani::cover!(a.len() == 4, "witness");
-    core::mem::forget(a);
-}
-
-
-/// Vec::push without the reallocating growth path: the first push allocates
-/// room for 4 elements, a fifth element fails loudly.
-fn vec_push_model<T, A>(v: &mut Vec<T>, value: T) {
-    if v.capacity() == 0 {
-        let fresh: Vec<T> = Vec::with_capacity(4);
-        let old = core::mem::replace(v, fresh);
-        core::mem::forget(old);
-    }
-    assert!(v.len() < v.capacity(), "Vec::push model: capacity 4 exceeded");
-    unsafe {
-        let len = v.len();
-        core::ptr::write(v.as_mut_ptr().add(len), value);
-        v.set_len(len + 1);
-    }
-}
-
-#[kani::proof]
-#[kani::unwind(6)]
-#[kani::stub(<[u8]>::eq_ignore_ascii_case, eq_ic_model)]
-#[kani::stub(alloc::vec::Vec::push, vec_push_model)]
-fn c22_e6_insert_create_pushstub() {
-    let e_root = any_entry([0]);
-    let t_root = etag(&e_root);
-    let root = mk(nm([0]), e_root);
+fn catalog_two_classes(r_in: &RefCat, r_ch: &RefCat) -> Cat {
+    let root_in = build_t5(r_in, Class::IN);
+    let root_ch = mk(N_ROOT, r_ch.entry(I_ROOT, Class::CH));
     let mut cat = Cat::new();
-    core::mem::forget(cat.roots_by_class.insert(Class::IN, root));
-    let t: u8 = kani::any();
-    let old = cat.insert(Entry::NotYetLoaded(nm([1, b'a', 0]), Class::IN, t));
-    assert!(old.is_none(), "[C22] insert returns the replaced entry");
-    let q0 = nm([0]);
-    let r = tag_of(cat.get(&q0, Class::IN));
-    assert!(r == t_root, "[C22] inserting one entry leaves the others in place");
-    let q = nm([1, b'a', 0]);
-    let r2 = tag_of(cat.get(&q, Class::IN));
-    assert!(r2 == Some(t), "[C22] get finds the inserted entry");
-    kani::cover!(t_root == Some(7), "witness");
-    core::mem::forget(old);
-    core::mem::forget(cat);
-    core::mem::forget(q);
-    core::mem::forget(q0);
+    core::mem::forget(cat.roots_by_class.insert(Class::IN, root_in));
+    core::mem::forget(cat.roots_by_class.insert(Class::CH, root_ch));
+    cat
 }
 
-
-#[kani::proof]
-#[kani::unwind(9)]
-fn c22_e7_heap_const_probe() {
-    let mut v: Vec<(u64, u64)> = Vec::new();
-    v.push((3, 4));
-    v.push((5, 2));
-    let x = spin_a(v[0].0 as usize);
-    let mut outer: Vec<Vec<u8>> = Vec::new();
-    outer.push(Vec::new());
-    outer[0].push(1);
-    outer[0].push(1);
-    let y = spin_b(outer[0].len());
-    let z = spin_c(outer[0].capacity());
-    assert!(x + y + z > 0, "[C22] e7");
-    kani::cover!(x == 3, "witness");
-    core::mem::forget(v);
-    core::mem::forget(outer);
-}
-
-
-#[kani::proof]
-#[kani::unwind(6)]
-#[kani::stub(<[u8]>::eq_ignore_ascii_case, eq_ic_model)]
-fn c22_e8_instrumented() {
-    let e_root = any_entry([0]);
-    let t_root = etag(&e_root);
-    let root = mk(nm([0]), e_root);
-    let mut cat = Cat::new();
-    core::mem::forget(cat.roots_by_class.insert(Class::IN, root));
-    let s1 = spin_a(cat.roots_by_class.len() + 1);
-    let s2 = match cat.roots_by_class.get(&Class::IN) {
-        Some(r) => spin_b(r.children.len() + 2),
-        None => 0,
-    };
-    let t: u8 = kani::any();
-    let old = cat.insert(Entry::NotYetLoaded(nm([1, b'a', 0]), Class::IN, t));
-    let s3 = match cat.roots_by_class.get(&Class::IN) {
-        Some(r) => spin_c(r.children.len() + 2),
-        None => 0,
-    };
-    assert!(s1 + s2 + s3 > 0, "[C22] e8");
-    kani::cover!(t_root == Some(7), "witness");
-    core::mem::forget(old);
+fn lookup_get_queries(from: usize, to: usize) {
+    let r_in = RefCat::any();
+    let r_ch = in_shape(RefCat::any(), SHAPE_ROOT);
+    let cat = catalog_two_classes(&r_in, &r_ch);
+    let mut k = from;
+    while k < to {
+        let q = nm(QUERIES[k]);
+        let (want, want_exact) = r_in.lookup(QUERIES[k]);
+        let got = see(cat.lookup(&q, Class::IN));
+        assert!(got == want, "[C22] lookup returns the entry of that class whose name is the longest suffix of the name");
+        let got_exact = see(cat.get(&q, Class::IN));
+        assert!(got_exact == if want_exact { want } else { None }, "[C22] exact lookup returns only an entry with exactly that name");
+        // class separation: the CH tree holds at most the root entry
+        let (want_ch, want_ch_exact) = r_ch.lookup(QUERIES[k]);
+        assert!(see(cat.lookup(&q, Class::CH)) == want_ch, "[C22] lookup only sees entries of the requested class");
+        assert!(see(cat.get(&q, Class::CH)) == if want_ch_exact { want_ch } else { None }, "[C22] exact lookup only sees entries of the requested class");
+        assert!(cat.lookup(&q, Class::HS).is_none(), "[C22] a class without entries has no match");
+        core::mem::forget(q);
+        k += 1;
+    }
+    kani::cover!(r_in.present[I_A] && !r_in.present[I_BA] && r_in.present[I_CBA], "entries at a. and c.b.a. but not at b.a.");
+    kani::cover!(!r_in.present[I_ROOT] && !r_in.present[I_A] && r_ch.present[I_ROOT], "IN has no entry above b.a., CH has a root entry");
     core::mem::forget(cat);
 }
 
-
-fn spin_e(n: usize) -> usize { let mut i = 0; while i < n { i += 1; } i }
-fn spin_f(n: usize) -> usize { let mut i = 0; while i < n { i += 1; } i }
-fn spin_g(n: usize) -> usize { let mut i = 0; while i < n { i += 1; } i }
-
+// @harness props=C22,C07 tier=quick mem=4 t=1500 fn="<HashMapTreeCatalog as Catalog>::lookup,Catalog::get (provided),lookup_in_class"
+//   bound="catalog of 2 classes: IN tree . -> a -> {b -> c, x} with every node's entry symbolic (absent/NotYetLoaded/FailedToLoad, u8 tag), CH tree = root node with symbolic entry; query names ., a., b.a., x.a., c.b.a. in classes IN, CH, HS; unwind 7"
+//   sym="entries of 6 nodes" stubs="eq_ignore_ascii_case" cbmc="--max-field-sensitivity-array-size 1024"
 #[kani::proof]
 #[kani::unwind(7)]
 #[kani::stub(<[u8]>::eq_ignore_ascii_case, eq_ic_model)]
-fn c22_e9_instrumented2() {
-    let t0: u8 = kani::any();
-    let root = mk(nm([0]), Some(Entry::NotYetLoaded(nm([0]), Class::IN, t0)));
-    let mut cat = Cat::new();
-    core::mem::forget(cat.roots_by_class.insert(Class::IN, root));
-    let name = nm([1, b'a', 0]);
-    // the steps of HashMapTreeCatalog::insert, one by one
-    let mut acc = 0;
-    {
-        let e = cat.roots_by_class.entry(Class::IN);
-        match e {
-            hash_map::Entry::Occupied(o) => {
-                acc += spin_a(1);
-                let r: &mut Node<NoZone, u8> = o.into_mut();
-                acc += spin_b(r.children.len() + 2);
-                let key = name[0].to_owned();
-                acc += spin_c(key.len() + 1);
-                let e2 = r.children.entry(key);
-                match e2 {
-                    hash_map::Entry::Occupied(_) => {
-                        acc += spin_d(5);
+fn c22_lookup_get_pool_names() {
+    lookup_get_queries(0, 5);
+}
+
+// @harness props=C22,C07 tier=quick mem=4 t=1500 fn="<HashMapTreeCatalog as Catalog>::lookup,Catalog::get (provided),lookup_in_class"
+//   bound="same catalog; query names B.A. (case variant), y.a. (no node), d.c.b.a. (below the deepest node), a.b. (labels reversed); unwind 7"
+//   sym="entries of 6 nodes" stubs="eq_ignore_ascii_case" cbmc="--max-field-sensitivity-array-size 1024"
+#[kani::proof]
+#[kani::unwind(7)]
+#[kani::stub(<[u8]>::eq_ignore_ascii_case, eq_ic_model)]
+fn c22_lookup_get_other_names() {
+    lookup_get_queries(5, 9);
+}
+
+// @harness props=C22 tier=thorough mem=6 t=2400 fn="HashMapTreeCatalog::iter,node::Iter::next"
+//   bound="same 2-class catalog (6 nodes, symbolic entries); full iteration, compared as a set with the reference; unwind 9"
+//   sym="entries of 6 nodes" stubs="eq_ignore_ascii_case" cbmc="--max-field-sensitivity-array-size 1024"
+#[kani::proof]
+#[kani::unwind(9)]
+#[kani::stub(<[u8]>::eq_ignore_ascii_case, eq_ic_model)]
+fn c22_iter_two_classes() {
+    let r_in = RefCat::any();
+    let r_ch = in_shape(RefCat::any(), SHAPE_ROOT);
+    let cat = catalog_two_classes(&r_in, &r_ch);
+    let mut seen_in = [false; 5];
+    let mut seen_ch = false;
+    let mut n = 0usize;
+    let mut it = cat.iter();
+    let mut k = 0;
+    while k < 7 {
+        if let Some(e) = it.next() {
+            n += 1;
+            if e.class() == Class::CH {
+                assert!(!seen_ch, "[C22] iteration yields each entry once");
+                seen_ch = true;
+                assert!(see(Some(e)) == r_ch.seen(I_ROOT), "[C22] iteration yields exactly the current entries");
+                assert!(e.name().len() == 1, "[C22] iteration yields exactly the current entries");
+            } else {
+                assert!(e.class() == Class::IN, "[C22] iteration yields exactly the current entries");
+                // identify the entry by its name
+                let w = e.name().wire_repr();
+                let mut idx = 5;
+                let mut i = 0;
+                while i < 5 {
+                    if w.len() == POOL[i].len() && ref_suffix(POOL[i], w).is_some() {
+                        idx = i;
                     }
-                    hash_map::Entry::Vacant(v) => {
-                        acc += spin_d(1);
-                        let n2 = v.insert(mk(nm([1, b'a', 0]), None));
-                        acc += spin_e(n2.children.len() + 2);
-                    }
+                    i += 1;
                 }
-                acc += spin_f(r.children.len() + 2);
-            }
-            hash_map::Entry::Vacant(_) => {
-                acc += spin_a(5);
+                assert!(idx < 5, "[C22] iteration yields exactly the current entries");
+                if idx < 5 {
+                    assert!(!seen_in[idx], "[C22] iteration yields each entry once");
+                    seen_in[idx] = true;
+                    assert!(see(Some(e)) == r_in.seen(idx), "[C22] iteration yields exactly the current entries");
+                }
             }
         }
+        k += 1;
     }
-    assert!(acc > 0, "[C22] e9");
-    kani::cover!(t0 == 7, "witness");
+    assert!(it.next().is_none(), "[C22] iteration ends after the current entries");
+    assert!(n == r_in.count(SHAPE_T5) + r_ch.count(SHAPE_ROOT), "[C22] iteration yields every current entry");
+    kani::cover!(n == 6, "all six nodes hold an entry");
+    kani::cover!(n == 0, "no node holds an entry");
+    kani::cover!(n == 2 && seen_in[I_CBA] && seen_ch, "one deep IN entry and the CH entry");
+    core::mem::forget(it);
     core::mem::forget(cat);
-    core::mem::forget(name);
 }
 
+// ---------------------------------------------------------------------------
+// one remove step (remove_in_class on the class root)
+// ---------------------------------------------------------------------------
 
-struct Big { a: usize, pad: [u8; 63], v: Vec<u8>, b: usize }
-
-#[kani::proof]
-#[kani::unwind(9)]
-fn c22_e10_heap_const_probe_big() {
-    let mut outer: Vec<Big> = Vec::new();
-    outer.push(Big { a: 3, pad: [0; 63], v: Vec::new(), b: 2 });
-    let x = spin_a(outer[0].a);
-    outer[0].v.push(1);
-    outer[0].v.push(1);
-    let y = spin_b(outer[0].v.len());
-    let mut outer2: Vec<Vec<Big>> = Vec::new();
-    outer2.push(Vec::new());
-    outer2[0].push(Big { a: 4, pad: [0; 63], v: Vec::new(), b: 2 });
-    let z = spin_c(outer2[0].len() + 2);
-    let w = spin_d(outer2[0][0].a);
-    assert!(x + y + z + w > 0, "[C22] e10");
-    kani::cover!(x == 3, "witness");
-    core::mem::forget(outer);
-    core::mem::forget(outer2);
-}
-
-
-#[kani::proof]
-#[kani::unwind(7)]
-#[kani::stub(<[u8]>::eq_ignore_ascii_case, eq_ic_model)]
-fn c22_e11a() {
-    // stack-resident parent, key from array
-    let mut r = mk(nm([0]), None);
-    core::mem::forget(r.children.insert(LabelBuf::from(b"a"), mk(nm([1, b'a', 0]), None)));
-    let x = spin_a(r.children.len() + 2);
-    assert!(x > 0, "[C22] e11a");
-    kani::cover!(x == 3, "witness");
-    core::mem::forget(r);
-}
-
-#[kani::proof]
-#[kani::unwind(7)]
-#[kani::stub(<[u8]>::eq_ignore_ascii_case, eq_ic_model)]
-fn c22_e11b() {
-    // heap-resident parent (inside a Vec), key from array
-    let mut outer: Vec<Node<NoZone, u8>> = Vec::new();
-    outer.push(mk(nm([0]), None));
-    core::mem::forget(outer[0].children.insert(LabelBuf::from(b"a"), mk(nm([1, b'a', 0]), None)));
-    let x = spin_a(outer[0].children.len() + 2);
-    assert!(x > 0, "[C22] e11b");
-    kani::cover!(x == 3, "witness");
-    core::mem::forget(outer);
-}
-
-
-#[kani::proof]
-#[kani::unwind(7)]
-#[kani::stub(<[u8]>::eq_ignore_ascii_case, eq_ic_model)]
-fn c22_e12a() {
-    let mut outer: Vec<Node<NoZone, u8>> = Vec::new();
-    outer.push(mk(nm([0]), None));
-    let name = nm([1, b'a', 0]);
-    core::mem::forget(outer[0].children.insert(name[0].to_owned(), mk(nm([1, b'a', 0]), None)));
-    let x = spin_a(outer[0].children.len() + 2);
-    assert!(x > 0, "[C22] e12a");
-    kani::cover!(x == 3, "witness");
-    core::mem::forget(outer);
-    core::mem::forget(name);
-}
-
-#[kani::proof]
-#[kani::unwind(7)]
-#[kani::stub(<[u8]>::eq_ignore_ascii_case, eq_ic_model)]
-fn c22_e12b() {
-    let mut outer: Vec<Node<NoZone, u8>> = Vec::new();
-    outer.push(mk(nm([0]), None));
-    let mut acc = 0;
-    match outer[0].children.entry(LabelBuf::from(b"a")) {
-        hash_map::Entry::Occupied(_) => { acc += spin_b(5); }
-        hash_map::Entry::Vacant(v) => {
-            let n2 = v.insert(mk(nm([1, b'a', 0]), None));
-            acc += spin_c(n2.children.len() + 2);
+fn remove_step(shape: [bool; 5], target: &[u8], target_idx: Option<usize>) -> RefCat {
+    let before = in_shape(RefCat::any(), shape);
+    let mut root = if shape[I_XA] { build_t5(&before, Class::IN) } else { build_chain4(&before, Class::IN) };
+    let q = nm(target);
+    // HashMapTreeCatalog::remove calls exactly this on the class root
+    let (removed, _root_is_prunable) = remove_in_class(&mut root, &q, q.len() - 1);
+    let mut after = before;
+    match target_idx {
+        Some(i) => {
+            assert!(see_owned(&removed) == before.seen(i), "[C22] remove returns the entry that was at that name and class");
+            after.present[i] = false;
         }
+        None => assert!(removed.is_none(), "[C22] removing a name without an entry returns nothing"),
     }
-    let x = spin_a(outer[0].children.len() + 2);
-    assert!(x + acc > 0, "[C22] e12b");
-    kani::cover!(x == 3, "witness");
-    core::mem::forget(outer);
-}
-
-
-fn build5_root(
-    e_root: Option<Entry<NoZone, u8>>,
-    e_a: Option<Entry<NoZone, u8>>,
-    e_ba: Option<Entry<NoZone, u8>>,
-    e_xa: Option<Entry<NoZone, u8>>,
-    e_cba: Option<Entry<NoZone, u8>>,
-) -> Node<NoZone, u8> {
-    let cba = mk(nm([1, b'c', 1, b'b', 1, b'a', 0]), e_cba);
-    let mut ba = mk(nm([1, b'b', 1, b'a', 0]), e_ba);
-    core::mem::forget(ba.children.insert(LabelBuf::from(b"c"), cba));
-    let xa = mk(nm([1, b'x', 1, b'a', 0]), e_xa);
-    let mut a = mk(nm([1, b'a', 0]), e_a);
-    core::mem::forget(a.children.insert(LabelBuf::from(b"b"), ba));
-    core::mem::forget(a.children.insert(LabelBuf::from(b"x"), xa));
-    let mut root = mk(nm([0]), e_root);
-    core::mem::forget(root.children.insert(LabelBuf::from(b"a"), a));
-    root
-}
-
-fn lk<const N: usize>(root: &Node<NoZone, u8>, w: [u8; N]) -> Option<u8> {
-    let q = nm(w);
-    let r = tag_of(lookup_in_class(root, &q, q.len() - 1));
-    core::mem::forget(q);
-    r
-}
-
-#[kani::proof]
-#[kani::unwind(6)]
-#[kani::stub(<[u8]>::eq_ignore_ascii_case, eq_ic_model)]
-fn c22_e13_remove_direct() {
-    let e_root = any_entry([0]);
-    let e_a = any_entry([1, b'a', 0]);
-    let e_ba = any_entry([1, b'b', 1, b'a', 0]);
-    let e_xa = any_entry([1, b'x', 1, b'a', 0]);
-    let e_cba = any_entry([1, b'c', 1, b'b', 1, b'a', 0]);
-    let (t_root, t_a, t_ba, t_xa, t_cba) = (etag(&e_root), etag(&e_a), etag(&e_ba), etag(&e_xa), etag(&e_cba));
-    let mut root = build5_root(e_root, e_a, e_ba, e_xa, e_cba);
-    let q = nm([1, b'c', 1, b'b', 1, b'a', 0]);
-    let (removed, _prune) = remove_in_class(&mut root, &q, q.len() - 1);
-    assert!(etag(&removed) == t_cba, "[C22] remove returns the entry that was at the name");
-    let or = |a: Option<u8>, b: Option<u8>| if a.is_some() { a } else { b };
-    let w_root = t_root;
-    let w_a = or(t_a, w_root);
-    let w_ba = or(t_ba, w_a);
-    let w_xa = or(t_xa, w_a);
-    assert!(lk(&root, [0]) == w_root, "[C22] removing one entry leaves the others in place (.)");
-    assert!(lk(&root, [1, b'a', 0]) == w_a, "[C22] removing one entry leaves the others in place (a.)");
-    assert!(lk(&root, [1, b'b', 1, b'a', 0]) == w_ba, "[C22] removing one entry leaves the others in place (b.a.)");
-    assert!(lk(&root, [1, b'x', 1, b'a', 0]) == w_xa, "[C22] removing one entry leaves the others in place (x.a.)");
-    assert!(lk(&root, [1, b'c', 1, b'b', 1, b'a', 0]) == w_ba, "[C22] the removed entry is gone (c.b.a.)");
-    kani::cover!(t_cba.is_some() && t_ba.is_some() && t_a.is_none(), "witness: parent with entry");
+    observe_tree(&root, &after);
     core::mem::forget(removed);
-    core::mem::forget(root);
     core::mem::forget(q);
+    core::mem::forget(root);
+    before
 }
 
-
+// @harness props=C22 tier=quick mem=5 t=2400 fn="remove_in_class,lookup_in_class"
+//   bound="tree . -> a -> {b -> c, x}, every entry symbolic; remove c.b.a. (a leaf whose parent b.a. may hold an entry and has no other child: defect D11); then lookup + exact lookup of 9 query names vs the reference; unwind 7"
+//   sym="entries of 5 nodes" stubs="eq_ignore_ascii_case" cbmc="--max-field-sensitivity-array-size 1024"
 #[kani::proof]
-#[kani::unwind(6)]
+#[kani::unwind(7)]
 #[kani::stub(<[u8]>::eq_ignore_ascii_case, eq_ic_model)]
-fn c22_e14_insert_direct() {
-    // tree: . -> a -> b ; insert x.a. (creates one node) 
-    let e_root = any_entry([0]);
-    let e_a = any_entry([1, b'a', 0]);
-    let e_ba = any_entry([1, b'b', 1, b'a', 0]);
-    let (t_root, t_a, t_ba) = (etag(&e_root), etag(&e_a), etag(&e_ba));
-    let ba = mk(nm([1, b'b', 1, b'a', 0]), e_ba);
-    let mut a = mk(nm([1, b'a', 0]), e_a);
-    core::mem::forget(a.children.insert(LabelBuf::from(b"b"), ba));
-    let mut root = mk(nm([0]), e_root);
-    core::mem::forget(root.children.insert(LabelBuf::from(b"a"), a));
-    let t: u8 = kani::any();
-    let entry: Entry<NoZone, u8> = Entry::NotYetLoaded(nm([1, b'x', 1, b'a', 0]), Class::IN, t);
-    // the two statements of HashMapTreeCatalog::insert after the class root has been found
+fn c22_step_remove_t5_cba() {
+    let before = remove_step(SHAPE_T5, N_CBA, Some(I_CBA));
+    kani::cover!(before.present[I_CBA] && before.present[I_BA], "removed a leaf entry whose parent node holds an entry");
+    kani::cover!(before.present[I_CBA] && !before.present[I_BA] && before.present[I_A], "removed a leaf entry whose parent node holds none (parent is pruned)");
+    kani::cover!(!before.present[I_CBA], "nothing to remove at the name");
+}
+
+// @harness props=C22 tier=thorough mem=5 t=2400 fn="remove_in_class,lookup_in_class"
+//   bound="same tree; remove x.a. (a leaf whose parent a. has another child); 9 query names; unwind 7"
+//   sym="entries of 5 nodes" stubs="eq_ignore_ascii_case" cbmc="--max-field-sensitivity-array-size 1024"
+#[kani::proof]
+#[kani::unwind(7)]
+#[kani::stub(<[u8]>::eq_ignore_ascii_case, eq_ic_model)]
+fn c22_step_remove_t5_xa() {
+    let before = remove_step(SHAPE_T5, N_XA, Some(I_XA));
+    kani::cover!(before.present[I_XA] && before.present[I_A], "removed x.a. below an entry at a.");
+}
+
+// @harness props=C22 tier=thorough mem=5 t=2400 fn="remove_in_class,lookup_in_class"
+//   bound="same tree; remove b.a. (an inner node with a child); 9 query names; unwind 7"
+//   sym="entries of 5 nodes" stubs="eq_ignore_ascii_case" cbmc="--max-field-sensitivity-array-size 1024"
+#[kani::proof]
+#[kani::unwind(7)]
+#[kani::stub(<[u8]>::eq_ignore_ascii_case, eq_ic_model)]
+fn c22_step_remove_t5_ba() {
+    let before = remove_step(SHAPE_T5, N_BA, Some(I_BA));
+    kani::cover!(before.present[I_BA] && before.present[I_CBA], "removed an inner entry above another entry");
+}
+
+// @harness props=C22 tier=thorough mem=5 t=2400 fn="remove_in_class,lookup_in_class"
+//   bound="same tree; remove a. (inner node with two children); 9 query names; unwind 7"
+//   sym="entries of 5 nodes" stubs="eq_ignore_ascii_case" cbmc="--max-field-sensitivity-array-size 1024"
+#[kani::proof]
+#[kani::unwind(7)]
+#[kani::stub(<[u8]>::eq_ignore_ascii_case, eq_ic_model)]
+fn c22_step_remove_t5_a() {
+    let before = remove_step(SHAPE_T5, N_A, Some(I_A));
+    kani::cover!(before.present[I_A] && before.present[I_ROOT], "removed a. below a root entry");
+}
+
+// @harness props=C22 tier=thorough mem=5 t=2400 fn="remove_in_class,lookup_in_class"
+//   bound="same tree; remove the root name; 9 query names; unwind 7"
+//   sym="entries of 5 nodes" stubs="eq_ignore_ascii_case" cbmc="--max-field-sensitivity-array-size 1024"
+#[kani::proof]
+#[kani::unwind(7)]
+#[kani::stub(<[u8]>::eq_ignore_ascii_case, eq_ic_model)]
+fn c22_step_remove_t5_root() {
+    let before = remove_step(SHAPE_T5, N_ROOT, Some(I_ROOT));
+    kani::cover!(before.present[I_ROOT] && before.present[I_XA], "removed the root entry above other entries");
+}
+
+// @harness props=C22 tier=thorough mem=5 t=2400 fn="remove_in_class,lookup_in_class"
+//   bound="same tree; remove y.a. (no such node); 9 query names; unwind 7"
+//   sym="entries of 5 nodes" stubs="eq_ignore_ascii_case" cbmc="--max-field-sensitivity-array-size 1024"
+#[kani::proof]
+#[kani::unwind(7)]
+#[kani::stub(<[u8]>::eq_ignore_ascii_case, eq_ic_model)]
+fn c22_step_remove_t5_absent() {
+    let before = remove_step(SHAPE_T5, &[1, b'y', 1, b'a', 0], None);
+    kani::cover!(before.present[I_A] && before.present[I_XA], "entries around the missing name");
+}
+
+// @harness props=C22 tier=quick mem=5 t=2400 fn="remove_in_class,lookup_in_class"
+//   bound="chain . -> a -> b -> c, every entry symbolic; remove c.b.a.: pruning may cascade through b.a., a. up to the root, each of which may hold an entry (defect D11 at every level); 9 query names; unwind 7"
+//   sym="entries of 4 nodes" stubs="eq_ignore_ascii_case" cbmc="--max-field-sensitivity-array-size 1024"
+#[kani::proof]
+#[kani::unwind(7)]
+#[kani::stub(<[u8]>::eq_ignore_ascii_case, eq_ic_model)]
+fn c22_step_remove_chain_cba() {
+    let before = remove_step(SHAPE_CHAIN4, N_CBA, Some(I_CBA));
+    kani::cover!(before.present[I_CBA] && !before.present[I_BA] && before.present[I_A], "pruning stops at a. because it holds an entry");
+    kani::cover!(before.present[I_CBA] && !before.present[I_BA] && !before.present[I_A] && before.present[I_ROOT], "pruning stops at the root because it holds an entry");
+    kani::cover!(before.present[I_CBA] && !before.present[I_BA] && !before.present[I_A] && !before.present[I_ROOT], "the whole chain is pruned");
+}
+
+// ---------------------------------------------------------------------------
+// one insert step onto an existing node (what HashMapTreeCatalog::insert does
+// after it has found the class root)
+// ---------------------------------------------------------------------------
+
+fn insert_existing_step(target: &[u8], i: usize) {
+    let before = RefCat::any();
+    let mut root = build_t5(&before, Class::IN);
+    let failed: bool = kani::any();
+    let tag: u8 = kani::any();
+    let entry: TEntry = if failed { Entry::FailedToLoad(nm(target), Class::IN, tag) } else { Entry::NotYetLoaded(nm(target), Class::IN, tag) };
     let old = {
         let node = root.get_or_create_descendant(entry.name(), entry.name().len() - 1);
         node.data.replace(entry)
     };
-    assert!(old.is_none(), "[C22] insert returns the replaced entry");
-    let or = |a: Option<u8>, b: Option<u8>| if a.is_some() { a } else { b };
-    let w_root = t_root;
-    let w_a = or(t_a, w_root);
-    let w_ba = or(t_ba, w_a);
-    assert!(lk(&root, [0]) == w_root, "[C22] inserting one entry leaves the others in place (.)");
-    assert!(lk(&root, [1, b'a', 0]) == w_a, "[C22] inserting one entry leaves the others in place (a.)");
-    assert!(lk(&root, [1, b'b', 1, b'a', 0]) == w_ba, "[C22] inserting one entry leaves the others in place (b.a.)");
-    assert!(lk(&root, [1, b'x', 1, b'a', 0]) == Some(t), "[C22] the inserted entry is found (x.a.)");
-    kani::cover!(t_a.is_some() && t_ba.is_none(), "witness");
+    assert!(see_owned(&old) == before.seen(i), "[C22] insert returns the entry it replaced");
+    let mut after = before;
+    after.present[i] = true;
+    after.failed[i] = failed;
+    after.tag[i] = tag;
+    observe_tree(&root, &after);
+    kani::cover!(before.present[i] && before.tag[i] != tag, "replaced an entry by a different one");
+    kani::cover!(!before.present[i], "filled an entry-less node");
     core::mem::forget(old);
     core::mem::forget(root);
+}
+
+// @harness props=C22 tier=thorough mem=6 t=2400 fn="Node::get_or_create_descendant (existing path),lookup_in_class"
+//   bound="tree . -> a -> {b -> c, x}, every entry symbolic; insert a symbolic entry at b.a. (node exists); 9 query names; unwind 7"
+//   sym="entries of 5 nodes + the new entry" stubs="eq_ignore_ascii_case" cbmc="--max-field-sensitivity-array-size 1024"
+#[kani::proof]
+#[kani::unwind(7)]
+#[kani::stub(<[u8]>::eq_ignore_ascii_case, eq_ic_model)]
+fn c22_step_insert_existing_ba() {
+    insert_existing_step(N_BA, I_BA);
+}
+
+// @harness props=C22 tier=thorough mem=6 t=2400 fn="Node::get_or_create_descendant (existing path),lookup_in_class"
+//   bound="same tree; insert a symbolic entry at the root; 9 query names; unwind 7"
+//   sym="entries of 5 nodes + the new entry" stubs="eq_ignore_ascii_case" cbmc="--max-field-sensitivity-array-size 1024"
+#[kani::proof]
+#[kani::unwind(7)]
+#[kani::stub(<[u8]>::eq_ignore_ascii_case, eq_ic_model)]
+fn c22_step_insert_existing_root() {
+    insert_existing_step(N_ROOT, I_ROOT);
+}
+
+// ---------------------------------------------------------------------------
+// the public wrappers HashMapTreeCatalog::{remove, insert} (class root
+// handling through the HashMap model's entry()) on a small catalog
+// ---------------------------------------------------------------------------
+
+fn small_catalog(r_in: &RefCat, r_ch: &RefCat) -> Cat {
+    let a = mk(N_A, r_in.entry(I_A, Class::IN));
+    let mut root_in = mk(N_ROOT, r_in.entry(I_ROOT, Class::IN));
+    attach(&mut root_in, b"a", a);
+    let root_ch = mk(N_ROOT, r_ch.entry(I_ROOT, Class::CH));
+    let mut cat = Cat::new();
+    core::mem::forget(cat.roots_by_class.insert(Class::IN, root_in));
+    core::mem::forget(cat.roots_by_class.insert(Class::CH, root_ch));
+    cat
+}
+
+fn observe_small(cat: &Cat, after_in: &RefCat, r_ch: &RefCat) {
+    let mut k = 0;
+    while k < 3 {
+        let q = nm(QUERIES[k]);
+        let (want, want_exact) = after_in.lookup(QUERIES[k]);
+        assert!(see(cat.lookup(&q, Class::IN)) == want, "[C22] an update never removes or alters any other entry");
+        assert!(see(cat.get(&q, Class::IN)) == if want_exact { want } else { None }, "[C22] an update never removes or alters any other entry (exact lookup)");
+        let (want_ch, _) = r_ch.lookup(QUERIES[k]);
+        assert!(see(cat.lookup(&q, Class::CH)) == want_ch, "[C22] an update leaves the other classes alone");
+        core::mem::forget(q);
+        k += 1;
+    }
+}
+
+// @harness props=C22 tier=thorough mem=12 t=3000 fn="HashMapTreeCatalog::remove,remove_in_class,<HashMapTreeCatalog as Catalog>::lookup,Catalog::get"
+//   bound="catalog of 2 classes: IN tree . -> a (both entries symbolic), CH root node with symbolic entry; HashMapTreeCatalog::remove(a., IN) (the class root may be deleted), then lookup/get of ., a., b.a. in IN and CH; unwind 6"
+//   sym="entries of 3 nodes" stubs="eq_ignore_ascii_case"
+#[kani::proof]
+#[kani::unwind(6)]
+#[kani::stub(<[u8]>::eq_ignore_ascii_case, eq_ic_model)]
+fn c22_api_remove_small() {
+    let r_in = in_shape(RefCat::any(), SHAPE_ROOT_A);
+    let r_ch = in_shape(RefCat::any(), SHAPE_ROOT);
+    let mut cat = small_catalog(&r_in, &r_ch);
+    let qa = nm(N_A);
+    let removed = cat.remove(&qa, Class::IN);
+    assert!(see_owned(&removed) == r_in.seen(I_A), "[C22] remove returns the entry that was at that name and class");
+    let mut after = r_in;
+    after.present[I_A] = false;
+    observe_small(&cat, &after, &r_ch);
+    kani::cover!(r_in.present[I_A] && r_in.present[I_ROOT], "removed a. below a root entry");
+    kani::cover!(r_in.present[I_A] && !r_in.present[I_ROOT] && r_ch.present[I_ROOT], "the IN class root is deleted, CH keeps its entry");
+    core::mem::forget(removed);
+    core::mem::forget(cat);
+    core::mem::forget(qa);
+}
+
+// @harness props=C22 tier=thorough mem=8 t=3000 fn="HashMapTreeCatalog::insert,Node::get_or_create_descendant (existing path),<HashMapTreeCatalog as Catalog>::lookup,Catalog::get"
+//   bound="same small 2-class catalog; HashMapTreeCatalog::insert of a symbolic entry at a. in class IN (class root and node exist), then lookup/get of ., a., b.a. in IN and CH; unwind 6"
+//   sym="entries of 3 nodes + the new entry" stubs="eq_ignore_ascii_case"
+#[kani::proof]
+#[kani::unwind(6)]
+#[kani::stub(<[u8]>::eq_ignore_ascii_case, eq_ic_model)]
+fn c22_api_insert_existing_small() {
+    let r_in = in_shape(RefCat::any(), SHAPE_ROOT_A);
+    let r_ch = in_shape(RefCat::any(), SHAPE_ROOT);
+    let mut cat = small_catalog(&r_in, &r_ch);
+    let tag: u8 = kani::any();
+    let old = cat.insert(Entry::NotYetLoaded(nm(N_A), Class::IN, tag));
+    assert!(see_owned(&old) == r_in.seen(I_A), "[C22] insert returns the entry it replaced");
+    let mut after = r_in;
+    after.present[I_A] = true;
+    after.failed[I_A] = false;
+    after.tag[I_A] = tag;
+    observe_small(&cat, &after, &r_ch);
+    kani::cover!(r_in.present[I_A] && r_in.tag[I_A] != tag, "replaced an entry by a different one");
+    core::mem::forget(old);
+    core::mem::forget(cat);
 }
